@@ -90,7 +90,13 @@ class Relation:
         )
 
     def __lt__(self, other: Any) -> bool:
-        return str(self) < str(other)
+        # As __eq__, the order must not depend on the order of the children
+        return self._ordering_key() < other._ordering_key()
+
+    def _ordering_key(self) -> tuple[str, int, int, list[str]]:
+        parent_name = self.parent.name if self.parent else ""
+        return (parent_name, self.card_min, self.card_max,
+                sorted(child.name for child in self.children))
 
 
 class FeatureType(Enum):
